@@ -15,6 +15,7 @@ Partial w.r.t. native kernels (DESIGN C14 Limits): exit status is evidence, not 
 """
 from __future__ import annotations
 import collections
+import copy
 import multiprocessing as mp
 import traceback
 
@@ -147,6 +148,49 @@ def faults_for(args: dict, kw: dict) -> list[tuple[str, dict]]:
     return out
 
 
+def legal_alternatives(cls, ctor, tens: dict, rest: dict, limit: int = 3):
+    """Valid update() argument sets of a DIFFERENT legal shape than the base call: single-argument and joint shape
+    perturbations that a fresh instance accepts (e.g. another number of classes when num_classes=None, another batch
+    size).  Width changes first."""
+    cands = []
+    names = list(tens)
+    for a in names:
+        for tag, new in SL.shape_perturbations(list(tens[a].shape)):
+            if 0 in new:
+                continue
+            f = dict(tens)
+            f[a] = SL.reshape_cyclic(tens[a], new)
+            cands.append((f"single:{a}:{tag}", f))
+    first = tens[names[0]]
+    group = [a for a in names if list(tens[a].shape) == list(first.shape)]
+    if len(group) > 1:
+        for tag, new in SL.shape_perturbations(list(first.shape)):
+            if 0 in new:
+                continue
+            f = dict(tens)
+            for a in group:
+                f[a] = SL.reshape_cyclic(tens[a], new)
+            cands.append((f"joint:{'+'.join(group)}:{tag}", f))
+
+    def prio(c):
+        t = c[0].rsplit(":", 1)[1]
+        return (0 if t.startswith(("dim1", "dim2")) and t.endswith(("plus1", "minus1")) else 1 if t.endswith(("plus1", "minus1")) else 2)
+    cands.sort(key=prio)
+    out = []
+    for tag, f in cands:
+        if len(out) >= limit:
+            break
+        try:
+            m = cls(**ctor)
+            with torch.no_grad():
+                m.update(**{**f, **rest})
+                m.compute()
+        except Exception:   # noqa: BLE001
+            continue
+        out.append((tag, {**f, **rest}))
+    return out
+
+
 def must_raise(target: str, tag: str, row) -> bool:
     """index safety: labels outside [0, C) reaching an index-writing kernel must raise."""
     if not (target in INDEX_WRITING and tag.startswith("label:")):
@@ -168,11 +212,27 @@ def _class_stream(row_index: int, q):
     try:
         row = SL.base_calls()[row_index]
         cls = SL.resolve_cls(row["cls"])
+        cname = row["cls"].rpartition(".")[2]
         ctor, upd = SL.split_class_args(cls, row)
         tens = {k: v for k, v in upd.items() if isinstance(v, torch.Tensor)}
         rest = {k: v for k, v in upd.items() if not isinstance(v, torch.Tensor)}
         valid = [upd, {**{k: SL.reshape_cyclic(v.flip(0) if v.ndim else v, list(v.shape)) for k, v in tens.items()}, **rest}]
         flts = faults_for(tens, rest)
+        alts = legal_alternatives(cls, ctor, tens, rest)
+        res["dist"]["legal-alternative-shapes"] = len(alts)
+        # what a never-faulted control does with each alternative legal update, per history position
+        ctl_alt = {}
+        for pos in (0, len(valid)):
+            for ai, (atag, aargs) in enumerate(alts):
+                c2 = cls(**ctor)
+                for v in valid[:pos]:
+                    c2.update(**v)
+                try:
+                    with torch.no_grad():
+                        c2.update(**aargs)
+                    ctl_alt[(pos, ai)] = ("returns", full_state(c2)["state_dict"], compute_obs(c2))
+                except Exception as ex:   # noqa: BLE001
+                    ctl_alt[(pos, ai)] = ("raises", type(ex).__name__, None)
         for pos in range(len(valid) + 1):
             for tag, f in flts:
                 m = cls(**ctor)
@@ -194,11 +254,11 @@ def _class_stream(row_index: int, q):
                     raised = f"{type(ex).__name__}: {str(ex)[:120]}"
                 key = f"{kind}:{'raises' if raised else 'returns'}"
                 res["dist"][key] = res["dist"].get(key, 0) + 1
-                desc = {"class": row["cls"], "tag": row["tag"], "ctor": {k: SL.describe(v) for k, v in ctor.items()},
+                desc = {"class": cname, "tag": row["tag"], "ctor": {k: SL.describe(v) for k, v in ctor.items()},
                         "position": pos, "fault": tag, "fault_args": {k: SL.describe(v) for k, v in f.items()}}
                 if raised is None:
                     res["returned"] += 1
-                    if must_raise(row["cls"], tag, row):
+                    if must_raise(cname, tag, row):
                         res["problems"].append({**desc, "problem": "label-out-of-range-accepted",
                                                 "fault_tensors": {k: v for k, v in f.items() if isinstance(v, torch.Tensor) and v.numel() <= 64}})
                     continue
@@ -217,7 +277,29 @@ def _class_stream(row_index: int, q):
                 if not same_obs(obs_before, obs_after):
                     res["problems"].append({**desc, "problem": "compute-changed-by-failed-update", "raised": raised})
                     continue
-                # keeps working
+                # keeps working -- also for a subsequent VALID update of a DIFFERENT legal shape: exactly as the control
+                alt_bad = False
+                for ai, (atag, aargs) in enumerate(alts):
+                    if (pos, ai) not in ctl_alt:
+                        continue
+                    m2 = copy.deepcopy(m)
+                    want = ctl_alt[(pos, ai)]
+                    try:
+                        with torch.no_grad():
+                            m2.update(**aargs)
+                        got = ("returns", full_state(m2)["state_dict"], compute_obs(m2))
+                    except Exception as ex:   # noqa: BLE001
+                        got = ("raises", f"{type(ex).__name__}: {str(ex)[:120]}", None)
+                    okalt = got[0] == want[0] and (got[0] == "raises" or (same(got[1], want[1]) and same_obs(got[2], want[2])))
+                    if not okalt:
+                        res["problems"].append({**desc, "problem": "later-valid-update-differs-from-control", "raised": raised,
+                                                "then_valid_update": {"kind": atag, "args": {k: SL.describe(v) for k, v in aargs.items()}},
+                                                "metric_after_failed_update": got[0] + (": " + got[1] if got[0] == "raises" else ""),
+                                                "control_never_faulted": want[0]})
+                        alt_bad = True
+                        break
+                if alt_bad:
+                    continue
                 try:
                     nxt = valid[pos % len(valid)]
                     m.update(**nxt)
@@ -385,14 +467,15 @@ def run(ctx):
     seen_cls = set()
     for i, r in enumerate(rows):
         if r.get("cls"):
-            jobs.append((f"class:{r['cls']}:{r['tag'] or 'default'}", _class_stream, i))
-            seen_cls.add(r["cls"])
+            jobs.append((f"class:{r['cls'].rpartition('.')[2]}:{r['tag'] or 'default'}", _class_stream, i))
+            seen_cls.add(r["cls"].rpartition(".")[2])
         if r.get("fn"):
             jobs.append((f"functional:{r['fn'].rpartition('.')[2]}:{r['tag'] or 'default'}", _functional_stream, i))
-    results = run_sandboxed(jobs, parallel=4)
+    results = run_sandboxed(jobs, parallel=6)
     s = ctx.stream("fault injection at every position of valid histories (sandboxed workers)")
     s.note = "faults enumerated completely per class (finite list); histories of length 0..2"
     reported = set()
+    counts = {}
     for label, status, res in sorted(results, key=lambda x: x[0]):
         ok = status == "ok"
         ctx.oblige(f"sandbox-exit:{label}", ok, detail=status)
@@ -415,6 +498,10 @@ def run(ctx):
             if fid and (tgt, prob["problem"], fid) in reported:
                 continue
             if key in reported:
+                continue
+            per = (tgt, prob["problem"], "count")
+            counts[per] = counts.get(per, 0) + 1
+            if counts[per] > 3:            # at most 3 replays per (target, kind of problem)
                 continue
             reported.add(key)
             reported.add((tgt, prob["problem"], fid))
